@@ -234,10 +234,11 @@ package proxy
 //@   let nH = len(E) - (hasBody ? 2 : 1)
 //@   sink [C12] header_line_is_the_comma_join_of_its_non_empty_values: Join requires ($arg1 == "," && called(@removeEmpty#1) && $arg0 == @removeEmpty#1) || $arg1 == "\n"
 //@   sink [C12] covered_header_values_are_read_from_the_request: removeEmpty requires $arg0 == req.Header[hdr]
-//@   ensures [C12] representation_is_the_newline_join: result.1 == nil && called(@Join#2) && arg(@Join#2, 1) == "\n" && result.0 == @Join#2 && nH >= 0 && nH <= len(signedHeaders)
-//@   ensures [C12] url_line_after_the_headers: E[nH] == urlLine(old(req.URL.Path), old(req.URL.RawQuery), old(req.URL.Fragment))
-//@   ensures [C12] body_is_the_last_line: hasBody ==> called(@ReadAll#1) && arg(@ReadAll#1, 0) == old(req.Body) && E[nH + 1] == @ReadAll#1.0
-//@   ensures [C12] body_put_back_intact: hasBody ==> req.Body != nil && req.Body.$content == old(req.Body.$content)
+//@   ensures [C12] representation_is_the_newline_join: result.1 == nil ==> called(@Join#2) && arg(@Join#2, 1) == "\n" && result.0 == @Join#2 && nH >= 0 && nH <= len(signedHeaders)
+//@   ensures [C12] url_line_after_the_headers: result.1 == nil ==> E[nH] == urlLine(old(req.URL.Path), old(req.URL.RawQuery), old(req.URL.Fragment))
+//@   ensures [C12] body_is_the_last_line: result.1 == nil && hasBody ==> @ReadAll#1.1 == nil && called(@ReadAll#1) && arg(@ReadAll#1, 0) == old(req.Body) && E[nH + 1] == @ReadAll#1.0
+//@   ensures [C12] body_put_back_intact: result.1 == nil && hasBody ==> req.Body != nil && req.Body.$content == old(req.Body.$content) && req.Body.$sound
+//@   ensures [C12] unreadable_body_is_an_error: hasBody && called(@ReadAll#1) && @ReadAll#1.1 != nil ==> result.1 != nil
 //@   ensures [C12] no_body_stays_no_body: !hasBody ==> req.Body == nil
 //@   loop 1
 //@     invariant len(entries) >= 0 && len(entries) <= $i
@@ -255,6 +256,7 @@ package proxy
 //@   ensures [C12] signature_header_is_base64url_of_the_signature: result == nil ==> hdrIs(req.Header, "Sso-Signature", b64enc(base64.URLEncoding, sigOf(signer.signingKey.tag, signer.signingKey.pay, hmacOf(H.$hkey, R))))
 //@   ensures [C12] kid_names_the_published_key: result == nil ==> hdrIs(req.Header, "Kid", signer.publicKeyID)
 //@   ensures [C12] covered_headers_untouched: forall k string :: k != "Sso-Signature" && k != "Kid" ==> (k in req.Header) == old(k in req.Header) && req.Header[k] == old(req.Header[k])
+//@   ensures [C12] body_intact: result == nil ==> (old(req.Body) == nil ==> req.Body == nil) && (old(req.Body) != nil ==> req.Body != nil && req.Body.$content == old(req.Body.$content))
 //@   ensures [C12] unsigned_on_failure_is_reported: result != nil ==> (@mapRequestToHashInput#1.1 != nil || @Sign#1.1 != nil)
 
 // The signing middleware: the request reaches the next handler only after the configured signatures were added
@@ -263,7 +265,8 @@ package proxy
 //@   modifies everything
 //@   sink [C12] forwarded_only_when_signed: ServeHTTP requires $arg0 == rw && $arg1 == req && (config.HMACAuth != nil ==> called(@SignRequest#1) && arg(@SignRequest#1, 1) == req) && (signer != nil ==> called(@Sign#1) && arg(@Sign#1, 1) == req && @Sign#1 == nil)
 //@   sink [C12] nothing_covered_changes_after_signing: ServeHTTP requires signer != nil ==> (forall k string :: (k in req.Header) == at(@Sign#1, (k in req.Header)) && req.Header[k] == at(@Sign#1, req.Header[k])) && req.Body == at(@Sign#1, req.Body) && req.URL.Path == at(@Sign#1, req.URL.Path) && req.URL.RawQuery == at(@Sign#1, req.URL.RawQuery)
-//@   ensures [C12] handed_on_once: called(@ServeHTTP#1)
+//@   sink [C12] body_arrives_intact: ServeHTTP requires (old(req.Body) == nil ==> req.Body == nil) && (old(req.Body) != nil ==> req.Body != nil && req.Body.$content == old(req.Body.$content))
+//@   ensures [C12] unsigned_is_refused: !called(@ServeHTTP#1) ==> rw.$status == 400 || old(rw.$status) != 0
 
 // The cookie is removed before anything is signed (the chain is deleteCookie -> sign -> timeout -> reverse proxy,
 // see the wiring obligations of NewUpstreamReverseProxy).
